@@ -25,13 +25,16 @@ def gen_union(rnd, i):
         fl = ["@dataclass", f"class {cname}:"]
         fields = [("x", "int", 1)] if simple else [("x", "int", 1), ("y", "float", 1.5)]
         if rnd.random() < 0.4: fields.append(("z", "List[int]", [1, 2]))
-        for fn, ft, _ in fields: fl.append(f"    {fn}: {ft}")
+        al = {}
+        for fn, ft, _ in fields:
+            if rnd.random() < 0.3: al[fn] = fn.upper() + "_al"; fl.append(f"    {fn}: {ft} = field(metadata=alias({al[fn]!r}))")
+            else: fl.append(f"    {fn}: {ft}")
         if has_field:
             tag = rnd.choice([cname.lower(), f"t{k}"])
             if aliased: fl.append(f"    {key}_: Literal[{tag!r}] = field(default={tag!r}, metadata=alias({key!r}))")
             else: fl.append(f"    {key}: Literal[{tag!r}] = {tag!r}")
         lines += fl + [""]
-        alts.append({"cls": cname, "tag": tag, "has_field": has_field, "aliased": aliased, "fields": fields})
+        alts.append({"cls": cname, "tag": tag, "has_field": has_field, "aliased": aliased, "fields": fields, "aliases": al})
     mode = rnd.choice(["default", "default", "explicit", "partial"])
     mapping = None
     if mode == "explicit": mapping = {f"m{k}": a["cls"] for k, a in enumerate(alts)}
@@ -70,7 +73,7 @@ def run_discr(seed, budget, want=("dispatch", "roundtrip", "tagged", "purity")):
         U = ns[u["name"]]
         for a in u["alts"]:
             cls = ns[a["cls"]]
-            body = {fn: fv for fn, _, fv in a["fields"]}
+            body = {a["aliases"].get(fn, fn): fv for fn, _, fv in a["fields"]}
             datum = dict(body); datum[u["key"]] = a["tag"]
             items = list(datum.items()); rnd.shuffle(items); datum = dict(items)
             evaluations += 1; distinct.add(case_hash(u["src"], a["cls"]))
@@ -91,7 +94,7 @@ def run_discr(seed, budget, want=("dispatch", "roundtrip", "tagged", "purity")):
                 r = out(lambda: deserialize(U, dict(body)))
                 if r[0] != "invalid" : fail("missing-discriminator-not-rejected", u, datum=body, got=r)
                 # an ill-typed field is rejected with the alternative's errors
-                ill = dict(snap); ill["x"] = "nope"
+                ill = dict(snap); ill[a["aliases"].get("x", "x")] = "nope"
                 r1 = out(lambda: deserialize(U, ill)); r2 = out(lambda: deserialize(cls, ill if a["has_field"] else {k: v for k, v in ill.items() if k != u["key"]}))
                 if r1 != r2: fail("discriminator-dispatch-differs-from-the-alternative-alone", u, datum=ill, got=r1, alternative=r2, alt=a["cls"])
             if "roundtrip" in want and got[0] == "ok":
